@@ -219,4 +219,41 @@ def runHistoryV : Sys → List WStep → Sys
   | sys, x :: rest =>
     runHistoryV (reconcileRevV ⟨applyActs sys.store x.before, sys.refs⟩ x.rev x.env x.w).1 rest
 
+/-! ### `spec.desiredState` as the string it is
+
+The CRD puts no enum and no default on `spec.desiredState`. Besides `Active` and `Inactive`
+it is, in practice, EMPTY: with `revisionActivationPolicy: Manual` the package manager creates
+new revisions without a desired state ("never activated"); and it may be anything a user typed.
+`Reconciler.Reconcile` reads it twice: `== Inactive` guards the deactivation (ReleaseObjects and
+the shortcut), `== Active` is the `control` argument of Establish. So a revision whose desired
+state is neither is not deactivated, takes no shortcut, and is established WITHOUT control: a
+plain owner that creates nothing. -/
+
+def activeState : String := "Active"
+def inactiveState : String := "Inactive"
+
+/-- one reconcile of the revision `p` with package `objs` whose `spec.desiredState` is `ds` -/
+def reconcileState (sys : Sys) (p : Parent) (objs : List Desired) (ds : String) (e : Env) (w : World) : Sys × R Unit :=
+  if ds = inactiveState then reconcileRevV sys ⟨p, false, objs⟩ e w
+  else if ds = activeState then reconcileRevV sys ⟨p, true, objs⟩ e w
+  else
+    match w.staleRefs with
+    | some _ => (sys, .err .conflict)   -- the update of the revision's metadata before Establish is refused
+    | none => establishAndRecordV sys sys.store ⟨p, false, objs⟩ e w
+
+/-- one step of a history: the third party writes `before`, then the revision `parent` (package
+`objs`), whose desired state is the string `state` at that moment, is reconciled in world `w` -/
+structure SStep where
+  before : List Act
+  parent : Parent
+  objs : List Desired
+  state : String
+  env : Env
+  w : World
+
+def runHistoryS : Sys → List SStep → Sys
+  | sys, [] => sys
+  | sys, x :: rest =>
+    runHistoryS (reconcileState ⟨applyActs sys.store x.before, sys.refs⟩ x.parent x.objs x.state x.env x.w).1 rest
+
 end Xp.C16
